@@ -46,6 +46,7 @@ func C06(r *core.Run) {
 	rule068(r)
 	rule069(r)
 	rule019(r)
+	rule012(r)
 }
 
 func rule061(r *core.Run) {
